@@ -1,8 +1,10 @@
 (* C04 -- BBS proof soundness.  Proved here: every proof with an identity among Abar, Bbar, D is rejected by the decoder
    AND by the verifier itself (the F1 forgery family); an accepted proof pins its challenge to the hash of the recomputed
    commitments and satisfies the pairing equation with non-identity points (the starting point of the extractor).
-   The statement-binding / bit-flip clauses rest on collision resistance: covered by correspondence + sweep. *)
-From ZK Require Import Laws BaseLemmas ModelLemmas SignProofs Codec Soundness.
+   Statement binding: one proof accepted for two statements CONSTRUCTS an explicit collision of the challenge hash unless the
+   statements agree (reduction, no injectivity hypothesis).  Bit flips of the proof itself and the special-soundness extractor:
+   correspondence + sweep. *)
+From ZK Require Import Laws BaseLemmas ModelLemmas SignProofs Codec Soundness UpdateProofs Separation Binding.
 
 Theorem C04_core_proof_verify_degenerate :
   forall (E : env) (LW : Laws E) pk p g header ph dm di api,
@@ -59,3 +61,52 @@ Proof. exact pok_strict. Qed.
 Check (C04_pok_strict :
   forall (E : env) b, (forall k, length b <> (272 + 32 * k)%nat) -> pok_from_bytes E b = Err).
 Print Assumptions C04_pok_strict.
+
+(* one proof object accepted for two statements (disclosed positions, disclosed message scalars, presentation header, and --
+   through the domain -- header / key / generators): the statements agree, or the two challenge inputs are an explicit collision *)
+Theorem C04_proof_statement_binding :
+  forall (E : env) (LW : Laws E) pk p g header header' ph ph' dm dm' di di' api,
+  core_proof_verify E pk p g header ph dm di api = Ok tt ->
+  core_proof_verify E pk p g header' ph' dm' di' api = Ok tt ->
+  (len (option_default [] ph) <= usize_max)%N -> (len (option_default [] ph') <= usize_max)%N ->
+  (N.of_nat (length (p_m_cap E p) + length di) <= usize_max)%N -> (N.of_nat (length (p_m_cap E p) + length di') <= usize_max)%N ->
+  exists ir ir',
+    proof_verify_init E pk p g header dm di api = Ok ir /\ proof_verify_init E pk p g header' dm' di' api = Ok ir' /\
+    ((di = di' /\ dm = dm' /\ option_default [] ph = option_default [] ph' /\ i_domain E ir = i_domain E ir') \/
+     Collision (fun x => f_of_okm (SO E) (expand E x (api ++ c_h2s (cs E)) 48))
+               (challenge_octets E ir di dm ph) (challenge_octets E ir' di' dm' ph')).
+Proof. exact proof_statement_binding. Qed.
+Check (C04_proof_statement_binding :
+  forall (E : env) (LW : Laws E) pk p g header header' ph ph' dm dm' di di' api,
+  core_proof_verify E pk p g header ph dm di api = Ok tt ->
+  core_proof_verify E pk p g header' ph' dm' di' api = Ok tt ->
+  (len (option_default [] ph) <= usize_max)%N -> (len (option_default [] ph') <= usize_max)%N ->
+  (N.of_nat (length (p_m_cap E p) + length di) <= usize_max)%N -> (N.of_nat (length (p_m_cap E p) + length di') <= usize_max)%N ->
+  exists ir ir',
+    proof_verify_init E pk p g header dm di api = Ok ir /\ proof_verify_init E pk p g header' dm' di' api = Ok ir' /\
+    ((di = di' /\ dm = dm' /\ option_default [] ph = option_default [] ph' /\ i_domain E ir = i_domain E ir') \/
+     Collision (fun x => f_of_okm (SO E) (expand E x (api ++ c_h2s (cs E)) 48))
+               (challenge_octets E ir di dm ph) (challenge_octets E ir' di' dm' ph'))).
+Print Assumptions C04_proof_statement_binding.
+
+(* the challenge octets are an injective encoding of (positions, scalars, T1, T2, domain, presentation header) *)
+Theorem C04_challenge_octets_inj :
+  forall (E : env) (LW : Laws E) ir ir' di di' dm dm' ph ph',
+  length dm = length di -> length dm' = length di' ->
+  Forall (fun i => (i <= usize_max)%N) di -> Forall (fun i => (i <= usize_max)%N) di' ->
+  (len di <= usize_max)%N -> (len di' <= usize_max)%N ->
+  (len (option_default [] ph) <= usize_max)%N -> (len (option_default [] ph') <= usize_max)%N ->
+  challenge_octets E ir di dm ph = challenge_octets E ir' di' dm' ph' ->
+  di = di' /\ dm = dm' /\ i_domain E ir = i_domain E ir' /\ option_default [] ph = option_default [] ph' /\
+  i_T1 E ir = i_T1 E ir' /\ i_T2 E ir = i_T2 E ir'.
+Proof. exact challenge_octets_inj. Qed.
+Check (C04_challenge_octets_inj :
+  forall (E : env) (LW : Laws E) ir ir' di di' dm dm' ph ph',
+  length dm = length di -> length dm' = length di' ->
+  Forall (fun i => (i <= usize_max)%N) di -> Forall (fun i => (i <= usize_max)%N) di' ->
+  (len di <= usize_max)%N -> (len di' <= usize_max)%N ->
+  (len (option_default [] ph) <= usize_max)%N -> (len (option_default [] ph') <= usize_max)%N ->
+  challenge_octets E ir di dm ph = challenge_octets E ir' di' dm' ph' ->
+  di = di' /\ dm = dm' /\ i_domain E ir = i_domain E ir' /\ option_default [] ph = option_default [] ph' /\
+  i_T1 E ir = i_T1 E ir' /\ i_T2 E ir = i_T2 E ir').
+Print Assumptions C04_challenge_octets_inj.
